@@ -236,7 +236,12 @@ pub fn sym_factor_text(carriers: &[&str]) -> String {
             tok(&format!("{}_co2", stem), f)
         ));
     };
-    for cr in carriers {
+    // the implementation refuses any factor set without an electricity grid factor
+    let mut carriers: Vec<&str> = carriers.to_vec();
+    if !carriers.contains(&"ELECTRICIDAD") {
+        carriers.push("ELECTRICIDAD");
+    }
+    for cr in &carriers {
         line(cr, "RED", "SUMINISTRO", "A");
         if *cr == "ELECTRICIDAD" {
             for dst in ["A_RED", "A_NEPB"] {
